@@ -80,7 +80,8 @@ func EndBlocker(ctx sdk.Context, k keeper.Keeper) {
 						sdk.NewAttribute(types.AttributeKeyPriceDenom, rawDenom),
 					),
 				})
-				return
+				// no provider can be priced: the batch is skipped below, so that the context
+				// keeps a scheduled event instead of a stale queue entry that is never visited again
 			}
 
 			if len(providers) > 0 && len(providers) >= int(requestContext.ResponseThreshold) {
